@@ -14,6 +14,10 @@ impl<'a> Paseto<'a, V4, Public> {
 
         let verifying_key: VerifyingKey = VerifyingKey::from_bytes(<&[u8; 32]>::try_from(public_key.as_ref())?)?;
 
+        //a payload shorter than the signature cannot be a token
+        if decoded_payload.len() < ed25519_dalek::SIGNATURE_LENGTH {
+            return Err(PasetoError::IncorrectSize);
+        }
         let msg = decoded_payload[..(decoded_payload.len() - ed25519_dalek::SIGNATURE_LENGTH)].as_ref();
         let sig = decoded_payload[msg.len()..msg.len() + ed25519_dalek::SIGNATURE_LENGTH].as_ref();
 
